@@ -391,7 +391,9 @@ impl<'a, 'b, CS: ChainStore + VersionbitsIndexer + 'static> BlockTxsVerifier<'a,
     ) -> Result<(Cycle, Vec<Completed>), Error> {
         // We should skip updating tx_verify_cache about the cellbase tx,
         // putting it in cache that will never be used until lru cache expires.
-        let fetched_cache = if resolved.len() > 1 {
+        // (when the scripts are skipped the cache is neither consulted nor updated: the recorded
+        // cycles are zero whatever was verified before)
+        let fetched_cache = if resolved.len() > 1 && !skip_script_verify {
             self.fetched_cache(resolved)
         } else {
             HashMap::new()
@@ -461,7 +463,9 @@ impl<'a, 'b, CS: ChainStore + VersionbitsIndexer + 'static> BlockTxsVerifier<'a,
             .map(|(_, completed)| completed)
             .cloned()
             .collect();
-        if !ret.is_empty() {
+        // a result obtained without running the scripts (cycles reported as zero) must not be
+        // reused by a later full verification of the same transaction
+        if !ret.is_empty() && !skip_script_verify {
             self.update_cache(ret);
         }
 
